@@ -130,7 +130,9 @@ def run_paste(ctx, spec):
             st = streams.build(rng, cands, k=1, n_each=13400 if ctx.tier == 'quick' else 100500, tagged=True,
                                opts={'hot': 1.0, 'reuse_bias': 1.0, 'prompt_delete': 1.0, 'first': 'get_registry', 'big_gaps': 0.0})
         else:
-            st = streams.build(rng, cands, k=k, n_each=(40, 220), tagged=True, opts={'hot': rng.choice([0.3, 0.6, 0.08]), 'tie_prefix': rng.choice([0, 0, 8, 30])})
+            st = streams.build(rng, cands, k=k, n_each=(40, 220), tagged=True, opts={'hot': rng.choice([0.3, 0.6, 0.08]), 'tie_prefix': rng.choice([0, 0, 8, 30]),
+                                                                                                      'backsteps': rng.choice([0, 0, 0.05, 0.2]), 'wrap': rng.random() < 0.15},
+                               t0=(2 ** 32 - rng.randint(1, 10 ** 6)) if rng.random() < 0.1 else None)
         s, probs = objcheck.run_stream(ctx, st, want=('C02', 'C03', 'C04'))
         if probs:
             objcheck.report(ctx, st, probs)      # an attribution problem would make the paste-back meaningless
